@@ -82,6 +82,7 @@ def hessian_doc(j, k, alpha, beta, half):
 
 class Stress:
     fp = True  # cross-check: the same contract on the unmodified float64 code at sampled inputs (bounded)
+    fp_nsamp = (1, 3)
 
     def fp_shapes(self, tier):
         sh = self.shapes(tier)
